@@ -21,7 +21,7 @@ CONSTANTS Inst,      \* which call site
 VARIABLES seq, phase, needNl, done
 vars == <<seq, phase, needNl, done>>
 
-ItemTxt(k) == IF Inst = "dict" THEN (CASE k = 1 -> "k1: a1" [] k = 2 -> "k2: bb2" [] k = 3 -> "k3: c3" [] OTHER -> "k4: d4")
+ItemTxt(k) == IF Inst = "eq" THEN "a+b" ELSE IF Inst = "dict" THEN (CASE k = 1 -> "k1: a1" [] k = 2 -> "k2: bb2" [] k = 3 -> "k3: c3" [] OTHER -> "k4: d4")
               ELSE (CASE k = 1 -> "a1" [] k = 2 -> "bb2" [] k = 3 -> "cccc3" [] OTHER -> "d4")
 BcTxt(k) == CASE k = 1 -> "/* c1 */" [] k = 2 -> "/* c2 */" [] OTHER -> "/* c3 */"
 LcTxt(k) == CASE k = 1 -> "// c1" [] k = 2 -> "// c2" [] OTHER -> "// c3"
@@ -30,7 +30,7 @@ NIt == NItems(seq)
 NCm == Cardinality({i \in 1..Len(seq) : seq[i].e \in {"bc", "lc"}})
 LastWs == seq # <<>> /\ IsWsEv(seq[Len(seq)])
 LastNl == seq # <<>> /\ seq[Len(seq)].e = "nl"
-Sepless == Inst \in {"block", "paren"}
+Sepless == Inst \in {"block", "paren", "eq"}
 (* items of a code block are separated by a line feed: whitespace-with-line-feed somewhere since the last item,
    with only comments / whitespace in between *)
 RECURSIVE NlSinceItem(_)
@@ -42,7 +42,7 @@ Init == seq = <<>> /\ phase = "start" /\ needNl = FALSE /\ done = FALSE
 Emit(ev, ph, nn) == seq' = Append(seq, ev) /\ phase' = ph /\ needNl' = nn /\ done' = FALSE
 Room == ~done /\ Len(seq) < MaxLen
 AItem == /\ Room /\ ~needNl /\ NIt < MaxItems
-         /\ IF Inst = "paren" THEN NIt = 0
+         /\ IF Inst \in {"paren", "eq"} THEN NIt = 0
             ELSE IF Inst = "block" THEN (phase = "start" \/ (phase = "item" /\ NlSinceItem(Len(seq))))
             ELSE phase \in {"start", "comma"}
          /\ Emit([e |-> "item", txt |-> ItemTxt(NIt + 1)], "item", FALSE)
@@ -55,7 +55,7 @@ ALc == Room /\ ~needNl /\ NCm < MaxCmt /\ Emit([e |-> "lc", txt |-> LcTxt(NCm + 
    expression has exactly one item *)
 CanFinish == /\ ~needNl
              /\ (Inst = "array" /\ NIt = 1) => phase = "comma"
-             /\ Inst = "paren" => NIt = 1
+             /\ Inst \in {"paren", "eq"} => NIt = 1
              /\ Inst = "dict" => NIt >= 1
 AFinish == ~done /\ CanFinish /\ done' = TRUE /\ UNCHANGED <<seq, phase, needNl>>
 Next == AItem \/ AComma \/ ASp \/ ANl \/ ABc \/ ALc \/ AFinish
@@ -64,11 +64,12 @@ Spec == Init /\ [][Next]_vars
 (***************************************************************************)
 (* The layout of a complete sequence.                                      *)
 (***************************************************************************)
-ArgsCfg == LET base == CfgOf("args", seq, Unit) IN
-           IF NIt = 1 THEN [base EXCEPT !.fold = "always", !.noDetach = TRUE] ELSE base   \* a single identifier argument
-TheCfg == IF Inst = "args" THEN ArgsCfg ELSE CfgOf(Inst, seq, Unit)
-Prefix == CASE Inst = "args" -> "#f" [] OTHER -> "#"
-Whole(d) == Cat(Cat(T(Prefix), d), HL)                    \* `#` node, then the end-of-document line feed
+ArgsCfgOf(sq) == LET base == CfgOf("args", sq, Unit) IN
+                 IF NItems(sq) = 1 THEN [base EXCEPT !.fold = "always", !.noDetach = TRUE] ELSE base   \* a single identifier argument
+CfgFor(sq) == IF Inst = "args" THEN ArgsCfgOf(sq) ELSE CfgOf(Inst, sq, Unit)
+TheCfg == CfgFor(seq)
+Prefix == CASE Inst = "args" -> "#f" [] Inst = "eq" -> "" [] OTHER -> "#"
+Whole(d) == IF Prefix = "" THEN Cat(d, HL) ELSE Cat(Cat(T(Prefix), d), HL)     \* `#` node, then the end-of-document line feed
 Out(w) == Format(Whole(ListDoc(TheCfg, seq)), w)
 
 (* string helpers on short lines *)
@@ -80,7 +81,7 @@ LTrimPosS(s, i) == IF i <= Len(s) /\ SubSeq(s, i, i) = " " THEN LTrimPosS(s, i +
 RECURSIVE Squeeze(_, _, _)          \* s without blanks, commas and the delimiters
 Squeeze(s, i, acc) == IF i > Len(s) THEN acc
                       ELSE LET ch == SubSeq(s, i, i) IN
-                           Squeeze(s, i + 1, IF ch \in {" ", ",", "(", ")", "{", "}", "#"} THEN acc ELSE acc \o ch)
+                           Squeeze(s, i + 1, IF ch \in {" ", ",", "(", ")", "{", "}", "#", "$"} THEN acc ELSE acc \o ch)
 RECURSIVE ConcatSq(_, _, _)
 ConcatSq(ls, i, acc) == IF i > Len(ls) THEN acc ELSE ConcatSq(ls, i + 1, acc \o Squeeze(ls[i], 1, ""))
 Expected == LET toks == SelectSeq(seq, LAMBDA ev : ev.e \in {"item", "bc", "lc"})
@@ -110,6 +111,54 @@ InvHygiene      == done => \A w \in 0..MaxW : Hygiene(Out(w))
 
 (* wide enough => the layout no longer depends on the width *)
 WidthStable == done => LET d == Whole(ListDoc(TheCfg, seq))  n == FlatLen(d) IN Format(d, n) = Format(d, n + 7)
+
+(***************************************************************************)
+(* Model-level convergence (C03 without running the code): the model's own *)
+(* output is tokenised back into child events (tokens are atomic, so this  *)
+(* is exact) and laid out again at the same width; the second layout must  *)
+(* equal the first.                                                        *)
+(***************************************************************************)
+D0 == TheCfg.sty.d0
+D1 == TheCfg.sty.d1
+TokSet == {ItemTxt(k) : k \in 1..4} \cup {BcTxt(k) : k \in 1..3} \cup {LcTxt(k) : k \in 1..3} \cup {",", D0, D1}
+                \cup (IF Prefix = "" THEN {} ELSE {Prefix})
+RECURSIVE LexLine(_, _, _)
+LexLine(s, i, acc) ==
+  IF i > Len(s) THEN acc
+  ELSE IF SubSeq(s, i, i) = " "
+       THEN LexLine(s, i + 1, IF acc # <<>> /\ acc[Len(acc)] # " " THEN Append(acc, " ") ELSE acc)
+       ELSE LET cand == {t \in TokSet : StartsAt(s, t, i)}
+                m == CHOOSE t \in cand : \A u \in cand : Len(u) <= Len(t)
+            IN LexLine(s, i + Len(m), Append(acc, m))
+TokEvent(t) == IF t = " " THEN [e |-> "sp"]
+               ELSE IF t = "," THEN [e |-> "comma"]
+               ELSE IF t \in {BcTxt(k) : k \in 1..3} THEN [e |-> "bc", txt |-> t]
+               ELSE IF t \in {LcTxt(k) : k \in 1..3} THEN [e |-> "lc", txt |-> t]
+               ELSE IF t \in {ItemTxt(k) : k \in 1..4} THEN [e |-> "item", txt |-> t]
+               ELSE [e |-> "delim", txt |-> t]
+(* all tokens of all lines; `pend` = number of line feeds since the last token *)
+RECURSIVE LexLines(_, _, _, _)
+LexLines(ls, k, acc, pend) ==
+  IF k > Len(ls) THEN acc
+  ELSE LET toks == LexLine(ls[k], 1, <<>>)
+           evs == [j \in 1..Len(toks) |-> TokEvent(toks[j])]
+       IN IF toks = <<>> THEN LexLines(ls, k + 1, acc, pend + 1)
+          ELSE LexLines(ls, k + 1, (IF acc # <<>> /\ pend > 0 THEN Append(acc, [e |-> "nl", n |-> pend]) ELSE acc) \o evs, 1)
+(* the children between the delimiters *)
+Relex(ls) == LET all == LexLines(ls, 1, <<>>, 0)
+                 open == CHOOSE i \in 1..Len(all) : all[i].e = "delim" /\ all[i].txt = D0
+                                /\ \A j \in 1..(i - 1) : ~(all[j].e = "delim" /\ all[j].txt = D0)
+                 close == CHOOSE i \in 1..Len(all) : all[i].e = "delim" /\ all[i].txt = D1
+                                /\ \A j \in (i + 1)..Len(all) : ~(all[j].e = "delim" /\ all[j].txt = D1)
+             IN SubSeq(all, open + 1, close - 1)
+OutOf(sq, w) == Format(Whole(ListDoc(CfgFor(sq), sq)), w)
+InvConvergence == done => \A w \in 0..MaxW : OutOf(Relex(Out(w)), w) = Out(w)
+
+(* overrides for bin/selftest *)
+AsFoundF06 == {"F06"}
+AsFoundF09a == {"F09a"}
+AsFoundF10 == {"F10"}
+AsFoundF20 == {"F20"}
 
 Gen == (done /\ GenOn) => PrintT(<<"GEN", ToJson([inst |-> Inst, unit |-> Unit, seq |-> seq,
                                                  pred |-> [w \in 0..MaxW |-> Out(w)]])>>)
